@@ -38,7 +38,7 @@ COMPONENTS = {"real": ["pel.peltool.peltool.main() / parsePEL in-process, all mo
                        "clock / interval timer (virtual: signal.alarm and setitimer interposed, slow-storage ticks per I/O event)"]}
 ASSUMPTIONS = ["a pristine module set (purge + import) is a faithful stand-in for a fresh interpreter; validated against real subprocesses on plans without fake plugins",
                "stderr is compared only for absence of tracebacks (the one-shot 'Failed to find PEL creators components config file' line is legitimately history dependent and not part of the document)"]
-PROBES = ["slow_storage", "timer_armed", "timer_fired", "cut_multibyte_text", "op:f", "op:a", "op:l", "op:bmc", "op:pp", "op:j", "damaged_before_good", "fault_before_same_module", "skip_then_enable",
+PROBES = ["slow_storage", "timer_armed", "timer_fired", "undecodable_builtin_section", "op:f", "op:a", "op:l", "op:bmc", "op:pp", "op:j", "damaged_before_good", "fault_before_same_module", "skip_then_enable",
           "registry", "subprocess_crosschecks", "repeat_same_pel"]
 
 
@@ -61,6 +61,20 @@ def gen_plan(rng, tier, run):
             {"kind": "ud", "id": "UD", "ver": 1, "subtype": rng.choice([1, 3]), "comp": 0x2000,
              "payload": (b"temperature 21" + rng.choice([b"\xe2\x84", b"\xc2", b"\xf0\x9f\x98"])).hex(), "badjson": True}]
         victim["damaged"] = True
+    if len(pels) >= 2 and rng.random() < 0.08:
+        # two logs whose BMC JSON sections (one User Data, one Extended User Data) hold an integer of more than 4300
+        # digits - beyond the interpreter-wide int/str conversion limit: each fails to decode wherever it stands
+        for p, kind in zip(rng.sample(pels, 2), ("ud", "ed")):
+            if p.get("damaged"):
+                continue
+            sec = {"kind": kind, "id": kind.upper(), "ver": 1, "subtype": 1, "comp": 0x2000,
+                   "payload": (b'{"count": ' + b"9" * rng.choice([4301, 5000, 9000]) + b"}").hex(), "badjson": True}
+            if kind == "ed":
+                sec["creator"] = "O"
+            else:
+                p["recipe"]["creator"] = "O"
+            p["recipe"]["sections"] = [x for x in p["recipe"]["sections"] if x["kind"] == "src"][:1] + [sec]
+            p["damaged"] = True
     for p in pels:
         if not p.get("damaged") and p["recipe"]["creator"] == "O" and rng.random() < 0.5:
             p["recipe"]["sections"].append(pelgen.gen_ud(rng, "O", [("O", 0x2000)]))
@@ -215,7 +229,7 @@ def execute(plan):
                     bump("damaged_before_good")
                 damaged_seen = damaged_seen or bool(p.get("junk") or p.get("damaged"))
                 if p.get("damaged"):
-                    bump("cut_multibyte_text")
+                    bump("undecodable_builtin_section")
             if "-P" in op["flags"]:
                 skipped_seen = True
             elif skipped_seen:
